@@ -9,7 +9,7 @@ import shutil
 import tempfile
 from pathlib import Path
 
-from harness import gen, wire
+from harness import gen, native, wire
 
 RULE = (
     "seeded nested dict/list structures (depth <= 10, int and str keys, adversarial keys containing quotes / brackets / "
@@ -66,7 +66,46 @@ def leaves(t, prefix=()):
         yield prefix, t
 
 
+def read_scope_oracle(case: dict):
+    """scope as a READ OPTION on a file with references, expressions and includes: read(f, scope=p) must be precisely
+    the content of the sub-dict at p of read(f) (references to keys outside the scope included)"""
+    import shutil
+
+    dictIO = native.dictio()
+    tmp = native.scratch_dir("c14r_")
+    try:
+        for rel, text in case["files"].items():
+            q = tmp / rel
+            q.parent.mkdir(parents=True, exist_ok=True)
+            q.write_text(text)
+        try:
+            full = gen.plain(dict(dictIO.DictReader.read(tmp / "root")))
+        except Exception:  # noqa: BLE001
+            return None                     # reading the document itself is C05's business
+        sub = full
+        for k in case["p"]:
+            if not isinstance(sub, dict) or k not in sub:
+                return None
+            sub = sub[k]
+        if not isinstance(sub, dict):
+            return None
+        try:
+            scoped = gen.plain(dict(dictIO.DictReader.read(tmp / "root", scope=list(case["p"]))))
+        except SystemExit:
+            return ("read-scope", f"read(scope={case['p']}) exited although the path leads to a dict")
+        except Exception as e:  # noqa: BLE001
+            return ("read-scope", f"read(scope={case['p']}) raised {type(e).__name__}: {e}")
+        a, b = native.canon_ids(native.strip_placeholders(scoped)), native.canon_ids(native.strip_placeholders(sub))
+        if not gen.typed_eq(a, b):
+            return ("read-scope", f"read(scope={case['p']}) = {a!r}, the sub-dict of the full read is {b!r}")
+        return None
+    finally:
+        shutil.rmtree(tmp, ignore_errors=True)
+
+
 def oracle(case: dict):
+    if case["kind"] == "read-scope":
+        return read_scope_oracle(case)
     dictIO, find_global_key, set_global_key, global_key_exists = _impl()
     kind = case["kind"]
     t = case["t"]
@@ -164,6 +203,8 @@ def oracle(case: dict):
 
 
 def shrink(case: dict):
+    if case["kind"] == "read-scope":
+        return
     for t2 in gen.shrink_tree(case["t"]):
         c = dict(case)
         c["t"] = t2
@@ -228,8 +269,26 @@ def leaf(rng):
     return gen.dom_scalar(rng)
 
 
+def read_scope_cases(ctx, rng):
+    from harness.props import c05
+
+    for i in range(ctx.n(80, 1500)):
+        nodes, feats = c05.gen_graph(rng, ints=True)
+        if "ZERODIV" in c05.expected_values(nodes)[0].values() or not c05.lexable(nodes):
+            continue
+        placement = [rng.choice(["root", "nested", "nested", "inlist", "inc-native", "inc-json"]) for _ in nodes]
+        c0 = c05.mk_case(rng, nodes, placement=placement)
+        for p in (["nest"], ["nest", "inner"]):
+            c = {"kind": "read-scope", "files": c0["files"], "p": p}
+            r = oracle(c)
+            if r:
+                ctx.oracle_fail(c, r[0], r[1])
+            ctx.count(("rs", repr(c0["files"]), tuple(p)), "nested" in placement, "read-scope")
+
+
 def run(ctx):
     rng = ctx.rng
+    read_scope_cases(ctx, rng)
     cases = []
     regex_cases = []
     n_struct = ctx.n(250, 4000)
